@@ -25,12 +25,58 @@ def _contains(node_list, types, stop_at_defs=True):
     return False
 
 
+def _loop_return_shape(st):
+    """``for ...: ... if c: return E ...`` -- a loop without ``else`` and without a ``break`` of its own, whose returns sit
+    in the loop body under nothing but ``if`` / ``with``: the return becomes ``<result> = E; break`` and the statements
+    after the loop move into the loop's ``else`` clause (they run exactly when the loop was not left by a return)."""
+    if not isinstance(st, (ast.For, ast.AsyncFor)) or st.orelse:
+        return False
+
+    def ok(stmts):
+        for s in stmts:
+            if isinstance(s, (ast.Break,)):
+                return False
+            if isinstance(s, ast.If):
+                if not ok(s.body) or not ok(s.orelse):
+                    return False
+            elif isinstance(s, (ast.With, ast.AsyncWith)):
+                if not ok(s.body):
+                    return False
+            elif isinstance(s, (ast.For, ast.While, ast.AsyncFor, ast.Try)):
+                # a nested loop may break / continue on its own, but must not return
+                if any(isinstance(x, ast.Return) for x in ast.walk(s)):
+                    return False
+            elif isinstance(s, ast.Match) if hasattr(ast, "Match") else False:
+                return False
+        return True
+
+    return ok(st.body)
+
+
+def _returns_to_breaks(stmts, ret_name):
+    out = []
+    for s in stmts:
+        if isinstance(s, ast.Return):
+            val = s.value if s.value is not None else ast.Constant(value=None)
+            out.append(ast.copy_location(ast.Assign(targets=[ast.Name(id=ret_name, ctx=ast.Store())], value=val), s))
+            out.append(ast.copy_location(ast.Break(), s))
+            return out
+        if isinstance(s, ast.If):
+            s = ast.copy_location(ast.If(test=s.test, body=_returns_to_breaks(s.body, ret_name) or [ast.Pass()], orelse=_returns_to_breaks(s.orelse, ret_name)), s)
+        elif isinstance(s, (ast.With, ast.AsyncWith)):
+            s = ast.copy_location(type(s)(items=s.items, body=_returns_to_breaks(s.body, ret_name)), s)
+        out.append(s)
+    return out
+
+
 def _returns_inside_loop(stmts):
-    for st in stmts:
+    for i, st in enumerate(stmts):
         if isinstance(st, (ast.For, ast.While, ast.AsyncFor)):
-            for sub in ast.walk(st):
-                if isinstance(sub, ast.Return):
+            if any(isinstance(sub, ast.Return) for sub in ast.walk(st)):
+                if not _loop_return_shape(st):
                     return True
+                # the statements after the loop become its else clause: they must be fine themselves
+                return _returns_inside_loop(stmts[i + 1 :])
         elif isinstance(st, (ast.If, ast.Try, ast.With, ast.AsyncWith)):
             for field in ("body", "orelse", "finalbody"):
                 if _returns_inside_loop(getattr(st, field, []) or []):
@@ -106,6 +152,12 @@ def _eliminate_returns(stmts, ret_name):
             new = ast.copy_location(ast.If(test=st.test, body=body or [ast.Pass()], orelse=orelse), st)
             out.append(new)
             return out
+        if isinstance(st, (ast.For, ast.AsyncFor)) and any(isinstance(s, ast.Return) for s in ast.walk(st)):
+            # only the shape accepted by _loop_return_shape gets here
+            rest = _eliminate_returns(stmts[i + 1 :], ret_name)
+            new = ast.copy_location(type(st)(target=st.target, iter=st.iter, body=_returns_to_breaks(st.body, ret_name), orelse=rest), st)
+            out.append(new)
+            return out
         if isinstance(st, ast.Try) and any(isinstance(s, ast.Return) for s in ast.walk(st)):
             # only the shape accepted by _simple_try_return gets here: every path through it returns or raises
             new = ast.copy_location(
@@ -144,6 +196,76 @@ def _cm_shape(fn):
     return None
 
 
+def _is_doc(s):
+    return isinstance(s, ast.Expr) and isinstance(s.value, ast.Constant) and isinstance(s.value.value, str)
+
+
+def _class_cm_shape(cd):
+    """A hand-written context manager class of the simplest kind -- ``__init__`` stores its parameters on ``self``,
+    ``__enter__`` does nothing, ``__exit__`` runs plain statements and returns nothing -- as (synthetic function,
+    shape) in the terms of ``_cm_shape``: ``with C(a): body`` is ``try: body finally: <statements of __exit__>``."""
+    methods = {s.name: s for s in cd.body if isinstance(s, ast.FunctionDef)}
+    others = [s for s in cd.body if not isinstance(s, ast.FunctionDef) and not _is_doc(s) and not (isinstance(s, ast.Assign) and len(s.targets) == 1 and isinstance(s.targets[0], ast.Name) and s.targets[0].id == "__slots__")]
+    if others or set(methods) != {"__init__", "__enter__", "__exit__"} or cd.bases or cd.decorator_list or cd.keywords:
+        return None
+    init, enter, exit_ = methods["__init__"], methods["__enter__"], methods["__exit__"]
+    for m in (init, enter, exit_):
+        if m.decorator_list or not m.args.args:
+            return None
+    a = init.args
+    if a.vararg or a.kwarg or a.kwonlyargs or a.posonlyargs:
+        return None
+    self_i = a.args[0].arg
+    params = [x.arg for x in a.args[1:]]
+    attr_of = {}
+    for s in init.body:
+        if _is_doc(s) or isinstance(s, ast.Pass):
+            continue
+        tg = s.targets[0] if isinstance(s, ast.Assign) and len(s.targets) == 1 else (s.target if isinstance(s, ast.AnnAssign) and s.value is not None else None)
+        if tg is None or not (isinstance(tg, ast.Attribute) and isinstance(tg.value, ast.Name) and tg.value.id == self_i) or not (isinstance(s.value, ast.Name) and s.value.id in params) or tg.attr in attr_of:
+            return None
+        attr_of[tg.attr] = s.value.id
+    # __enter__: nothing happens, nothing (or None) is returned
+    for s in enter.body:
+        if _is_doc(s) or isinstance(s, ast.Pass) or (isinstance(s, ast.Return) and (s.value is None or (isinstance(s.value, ast.Constant) and s.value.value is None))):
+            continue
+        return None
+    ea = exit_.args
+    self_e = ea.args[0].arg
+    exc_names = set(x.arg for x in ea.args[1:]) | ({ea.vararg.arg} if ea.vararg else set())
+    body = [s for s in exit_.body if not _is_doc(s) and not isinstance(s, ast.Pass)]
+    for s in body:
+        for sub in ast.walk(s):
+            if isinstance(sub, (ast.Return, ast.Yield, ast.YieldFrom, ast.Await, ast.FunctionDef, ast.Lambda)):
+                return None
+            if isinstance(sub, ast.Name) and sub.id in exc_names:
+                return None
+            if isinstance(sub, ast.Name) and sub.id == self_e:
+                pass
+    # self.<attr> -> the parameter it was initialised from; any other use of self is not understood
+    class _Sub(ast.NodeTransformer):
+        ok = True
+
+        def visit_Attribute(self, node):
+            if isinstance(node.value, ast.Name) and node.value.id == self_e:
+                if node.attr in attr_of and isinstance(node.ctx, ast.Load):
+                    return ast.copy_location(ast.Name(id=attr_of[node.attr], ctx=ast.Load()), node)
+                _Sub.ok = False
+            return self.generic_visit(node)
+
+        def visit_Name(self, node):
+            if node.id == self_e:
+                _Sub.ok = False
+            return node
+
+    _Sub.ok = True
+    fin = [_Sub().visit(copy.deepcopy(s)) for s in body]
+    if not _Sub.ok:
+        return None
+    fn = ast.FunctionDef(name=cd.name, args=ast.arguments(posonlyargs=[], args=[ast.arg(arg=p) for p in params], vararg=None, kwonlyargs=[], kw_defaults=[], kwarg=None, defaults=list(a.defaults)), body=fin or [ast.Pass()], decorator_list=[], returns=None, type_comment=None, lineno=cd.lineno, col_offset=0)
+    return fn, ([], None, fin, [])
+
+
 class _Rename(ast.NodeTransformer):
     def __init__(self, mapping):
         self.mapping = mapping
@@ -164,6 +286,7 @@ class Inliner:
         self.tree = tree
         self.module = module_name
         known = set(KNOWN.get(module_name, []))
+        self.known = known
         self.helpers = {}  # key -> FunctionDef ; key = name or 'Class.name'
         for st in tree.body:
             self._collect(st, None, known)
@@ -176,6 +299,10 @@ class Inliner:
                 shape = _cm_shape(st)
                 if shape is not None:
                     self.cm_helpers[st.name] = (st, shape)
+            if isinstance(st, ast.ClassDef) and st.name not in known and st.name.startswith("_"):
+                got = _class_cm_shape(st)
+                if got is not None:
+                    self.cm_helpers[st.name] = got
 
     def _collect(self, st, cls, known):
         if isinstance(st, (ast.FunctionDef, ast.AsyncFunctionDef)):
@@ -188,6 +315,51 @@ class Inliner:
         elif isinstance(st, ast.If):
             for s in st.body + st.orelse:
                 self._collect(s, cls, known)
+
+    def _local_helpers(self, outer):
+        """Helper functions defined inside ``outer`` next to the closures that call them (``def resolve_call(...)`` shared
+        by the two ``wrapper`` closures).  Expanding a call inside a sibling closure keeps the meaning when the free
+        names of the helper mean the same there: none of them is a local of any other function nested in ``outer``."""
+        nested = []
+
+        def scan(stmts):
+            for s in stmts:
+                if isinstance(s, (ast.FunctionDef, ast.AsyncFunctionDef)):
+                    nested.append(s)
+                elif isinstance(s, ast.If):
+                    scan(s.body)
+                    scan(s.orelse)
+
+        scan(outer.body)
+        names = [f.name for f in nested]
+        out = {}
+        for f in nested:
+            if f.name in self.known or f.name in self.helpers or f.name == "wrapper" or names.count(f.name) != 1 or not inlinable(f):
+                continue
+            a = f.args
+            own = set(x.arg for x in a.posonlyargs + a.args + a.kwonlyargs)
+            own |= set(n.id for n in ast.walk(f) if isinstance(n, ast.Name) and isinstance(n.ctx, (ast.Store, ast.Del)))
+            free = set(n.id for n in ast.walk(f) if isinstance(n, ast.Name) and isinstance(n.ctx, ast.Load)) - own
+            clash = False
+            for g in nested:
+                if g is f:
+                    continue
+                ga = g.args
+                g_locals = set(x.arg for x in ga.posonlyargs + ga.args + ga.kwonlyargs)
+                if ga.vararg:
+                    g_locals.add(ga.vararg.arg)
+                if ga.kwarg:
+                    g_locals.add(ga.kwarg.arg)
+                g_locals |= set(n.id for n in ast.walk(g) if isinstance(n, ast.Name) and isinstance(n.ctx, (ast.Store, ast.Del)))
+                if free & g_locals:
+                    clash = True
+            # the name itself must only be called (not stored, passed on or re-bound)
+            uses = [n for n in ast.walk(outer) if isinstance(n, ast.Name) and n.id == f.name]
+            calls = [c.func for c in ast.walk(outer) if isinstance(c, ast.Call) and isinstance(c.func, ast.Name) and c.func.id == f.name]
+            if clash or len(uses) != len(calls):
+                continue
+            out[f.name] = f
+        return out
 
     # ------------------------------------------------------------------ call recognition
     def _helper_of_call(self, call, cls):
@@ -385,13 +557,14 @@ class Inliner:
         return [st]
 
     def run(self):
-        if not self.helpers and not self.cm_helpers:
-            return self.tree
-
         def top(stmts, cls):
             for st in stmts:
                 if isinstance(st, (ast.FunctionDef, ast.AsyncFunctionDef)):
+                    local = self._local_helpers(st)
+                    self.helpers.update(local)
                     st.body = self._rewrite_block(st.body, cls, isinstance(st, ast.AsyncFunctionDef), st.name, 0)
+                    for k_ in local:
+                        del self.helpers[k_]
                 elif isinstance(st, ast.ClassDef):
                     top(st.body, st.name if cls is None else cls)
                 elif isinstance(st, ast.If):
